@@ -4,6 +4,7 @@ import Proofs.C20Spec
 import Proofs.C20Ctx
 import Proofs.C20Conc
 import Proofs.C20Read
+import Proofs.C20Copy
 /-!
   C20 — an interrupt cancels exactly the innermost running evaluation, safely.
 
@@ -21,6 +22,11 @@ import Proofs.C20Read
        finished evaluations are never touched again — `finished_never_touched`, `finish_idempotent`;
        stop cancels everything — `stop_cancels_all`;
    (c) output written through a CtxWriter after cancellation is suppressed — `writer_suppressed`;
+       and that holds for every output path that ends in `Write` calls, in particular for a copy that
+       is cancelled while it runs: `io.Copy`/`io.CopyBuffer`/`bitiox.CopyBits` into a CtxWriter lets
+       exactly the chunks delivered before the cancellation through — `copy_stops_at_cancel`,
+       `copy_eq_writes`, `copy_never_cancelled`; a `ReadFrom` fast path that checks the context once
+       contradicts it — `copy_fastpath_witness`;
    (d) why the two fixes are needed — `stale_pop_witness` (the pop closure before commit c3499288
        violates the specification on two sequential histories), `unlocked_witness` (without the mutex
        of commit 243f567c a schedule exists on which the goroutine indexes past a truncated slice);
@@ -217,6 +223,79 @@ theorem writer_suppressed_nested (c : Ctxs) (i : Nat) (h : c.err i = true) (w : 
 theorem writer_passes_live (c : Ctxs) (i : Nat) (p sink : List UInt8) (h : c.err i = false) :
     (Writer.ctx (some i) .sink).write c p sink = (sink ++ p, p.length) := by
   simp [Writer.write, Writer.passes, h]
+
+/-! ### (c') a copy into a CtxWriter that is cancelled while it runs
+
+  `cB` / `cA` = the contexts before / after the cancellation, which lands after the source has
+  delivered `k` chunks; any chunking, any cancellation point, any writer chain. -/
+
+/-- copying ≡ handing the chunks to `Write` one by one (ignoring the errors): the same bytes reach
+    the sink, for every chunking and every cancellation point (`hmono`: contexts are not revived) -/
+theorem copy_eq_writes (cB cA : Ctxs) (w : Writer) (chunks : List (List UInt8)) (ca : Option Nat)
+    (sink : List UInt8) (hmono : w.passes cB = false → w.passes cA = false) :
+    (w.copyFrom cB cA chunks ca sink).sink = writeAll cB cA w ca 0 chunks sink :=
+  copyLoop_eq_writeAll cB cA w ca hmono chunks 0 _
+
+/-- the bytes that reach the sink are exactly the concatenation of the chunks delivered before the
+    cancellation, and `written` counts exactly them: nothing of chunk `k` or later. (The real copy
+    may be cancelled while `Write` of chunk `k` is already past its check — then chunk `k`, "the chunk
+    in flight", arrives too; the driver's predicate allows it, the model places the cancellation
+    between two writes.) -/
+theorem copy_stops_at_cancel (cB cA : Ctxs) (w : Writer) (chunks : List (List UInt8)) (k : Nat)
+    (sink : List UInt8) (hB : w.passes cB = true) (hA : w.passes cA = false) :
+    (w.copyFrom cB cA chunks (some k) sink).sink = sink ++ (chunks.take k).flatten ∧
+    (w.copyFrom cB cA chunks (some k) sink).written = ((chunks.take k).flatten).length := by
+  have := copyLoop_take cB cA w k hB hA chunks 0 ⟨sink, 0, false⟩
+  simpa [Writer.copyFrom] using this
+
+/-- … instantiated: the CtxWriter of evaluation `i` (anywhere in a chain of nested `_eval` writers whose
+    other contexts stay live), context `i` cancelled by the interrupt -/
+theorem copy_stops_at_cancel_ctx (c : Ctxs) (i : Nat) (chunks : List (List UInt8)) (k : Nat)
+    (sink : List UInt8) (hB : c.err i = false) (hA : (c.cancel i).err i = true) :
+    ((Writer.ctx (some i) .sink).copyFrom c (c.cancel i) chunks (some k) sink).sink =
+      sink ++ (chunks.take k).flatten :=
+  (copy_stops_at_cancel c (c.cancel i) _ chunks k sink (by simp [Writer.passes, hB])
+    (by simp [Writer.passes, hA])).1
+
+/-- never cancelled: every byte arrives, in order, no error -/
+theorem copy_never_cancelled (cB cA : Ctxs) (w : Writer) (chunks : List (List UInt8)) (sink : List UInt8)
+    (hB : w.passes cB = true) :
+    w.copyFrom cB cA chunks none sink = ⟨sink ++ chunks.flatten, chunks.flatten.length, false⟩ := by
+  have := copyLoop_all cB cA w hB chunks 0 ⟨sink, 0, false⟩
+  simpa [Writer.copyFrom] using this
+
+/-- the driver's length-only evaluation of the copy loop is the byte-level model's `written`/`err` -/
+theorem copy_len_abstraction (cB cA : Ctxs) (w : Writer) (chunks : List (List UInt8)) (ca : Option Nat)
+    (sink : List UInt8) :
+    ((w.copyFrom cB cA chunks ca sink).written, (w.copyFrom cB cA chunks ca sink).err) =
+      copyLen (fun j => w.passes (ctxAt cB cA ca j)) 0 (chunks.map List.length) 0 ∧
+    (w.copyFrom cB cA chunks ca sink).sink.length = sink.length + (w.copyFrom cB cA chunks ca sink).written := by
+  have := copyLoop_len cB cA w ca chunks 0 ⟨sink, 0, false⟩ rfl
+  simpa [Writer.copyFrom] using this
+
+/-- a `ReadFrom` fast path that consults the context once (the seeded change) lets the chunks after the
+    cancellation through: it is not the modelled writer -/
+theorem copy_fastpath_witness :
+    let cB := Ctxs.empty.withCancel none
+    let cA := cB.cancel 0
+    let w := Writer.ctx (some 0) .sink
+    (w.copyFrom cB cA [[1], [2], [3]] (some 1) []).sink = [1] ∧
+    (w.copyFromFast cB cA [[1], [2], [3]] (some 1) []).sink = [1, 2, 3] := by decide
+
+/-- copy_stops_at_cancel / copy_eq_writes: the hypotheses hold for the CtxWriter of a cancelled inner
+    evaluation wrapped around the CtxWriter of a live outer one; chunks of different sizes incl. an
+    empty read; the cancellation after 2 chunks -/
+example :
+    let cB := (Ctxs.empty.withCancel none).withCancel (some 0)
+    let cA := cB.cancel 1
+    let w := Writer.ctx (some 1) (Writer.ctx (some 0) .sink)
+    w.passes cB = true ∧ w.passes cA = false ∧ (w.passes cB = false → w.passes cA = false) ∧
+    (w.copyFrom cB cA [[1, 2], [], [3], [4, 5], [6]] (some 2) [9]) = ⟨[9, 1, 2], 2, true⟩ ∧
+    writeAll cB cA w (some 2) 0 [[1, 2], [], [3], [4, 5], [6]] [9] = [9, 1, 2] := by decide
+
+/-- copy_stops_at_cancel_ctx: a live context whose cancellation is visible -/
+example : (Ctxs.empty.withCancel none).err 0 = false ∧ ((Ctxs.empty.withCancel none).cancel 0).err 0 = true := by
+  decide
 
 /-! ### (d) why the fixes are needed -/
 
